@@ -96,6 +96,16 @@ class Angle(EdgeData):
     def scale(self, ratio, origin=None):
         """Axis is not to be scaled"""
 
+    def rotate(self, angle, axis, origin=None):
+        """Axis is a direction: it is rotated but not moved around 'origin'"""
+        self.axis.rotate(angle, axis, [0, 0, 0])
+        return self
+
+    def mirror(self, normal, origin=None):
+        """Axis is a direction: it is reflected but not moved around 'origin'"""
+        self.axis.mirror(normal, [0, 0, 0])
+        return self
+
     @property
     def parts(self):
         return [self.axis]
